@@ -22,10 +22,12 @@ from . import units_b_terms as T
 from . import units_b_adapter as A
 
 PID = "C06"
+DEVIATIONS = ["float_exponent_truncated", "numpy_left_operand"]      # named deviations of the spec; switched off when their findings are fixed
 
 CFG = """CONSTANTS
   UInfo <- {uinfo}
   Source = "{source}"
+  FixedDevs = {fixed}
   Emit = TRUE
 SPECIFICATION Spec
 INVARIANT EmitInv
@@ -318,10 +320,11 @@ def run(replay=None):
             print(f"(known finding {k})")
         return 0
     wd = C.workdir(PID)
+    FIXED = C.tla_str(set(A.repaired_deviations(PID, DEVIATIONS)))
     t = C.tier()
     rnd = C.rng(6)
     # 1. exhaustive enumeration over the exact-ratio units
-    r = C.run_tlc(wd, "QuantityAlgGen", CFG.format(uinfo="ExactUnits", source="enum", lemmas="INVARIANT Lemmas"))
+    r = C.run_tlc(wd, "QuantityAlgGen", CFG.format(uinfo="ExactUnits", source="enum", lemmas="INVARIANT Lemmas", fixed=FIXED))
     if r.violated:
         raise C.MachineryError(f"QuantityAlgGen: {r.violated} violated on the rational model:\n{r.cex[:3000]}")
     recs = r.records
@@ -333,7 +336,7 @@ def run(replay=None):
     fin = os.path.join(wd, "qalg_in.json")
     with open(fin, "w") as f:
         json.dump(table_scenarios(rnd, nfile), f)
-    r2 = C.run_tlc(wd, "QuantityAlgGen", CFG.format(uinfo="FileUnits", source="file", lemmas=""), env={"QALG_IN": fin})
+    r2 = C.run_tlc(wd, "QuantityAlgGen", CFG.format(uinfo="FileUnits", source="file", lemmas="", fixed=FIXED), env={"QALG_IN": fin})
     if r2.violated or len(r2.records) != nfile:
         raise C.MachineryError(f"QuantityAlgGen(file): {r2.violated} records={len(r2.records)}/{nfile}\n{r2.cex[:2000]}")
     states += r2.distinct; trans += r2.generated
